@@ -224,6 +224,10 @@ def st_tc_case(draw):
     return {
         "kind": "tc", "spec": spec, "TMin": _r(TMin, 12), "TMax": _r(TMax, 12), "dT": _r(dT_rel * Tc, 6),
         "rTol": rTol, "paranoid": paranoid,
+        # which phases the USER traces before asking for Tc; findCriticalTemperature traces the others itself over
+        # the coexistence range ("none": the range is given through min/maxPossibleTemperature, the only way to
+        # give one to never-traced phases)
+        "pretrace": draw(st.sampled_from(["both", "both", "high", "low", "none"])),
     }
 
 
@@ -774,10 +778,18 @@ def check_tc(case, v: Verdict):
     th.freeEnergyLow.disableAdaptiveInterpolation()
     check_fresh(th.freeEnergyHigh, v, f"{spec['family']}/high")
     check_fresh(th.freeEnergyLow, v, f"{spec['family']}/low")
+    pre = case.get("pretrace", "both")
+    v.label(f"tc-pretrace:{pre}")
     try:
         with time_limit(2 * TRACE_TIME_LIMIT_S):
-            th.freeEnergyHigh.tracePhase(TMin, TMax, dT, rTol=rTol, paranoid=paranoid)
-            th.freeEnergyLow.tracePhase(TMin, TMax, dT, rTol=rTol, paranoid=paranoid)
+            if pre in ("both", "high"):
+                th.freeEnergyHigh.tracePhase(TMin, TMax, dT, rTol=rTol, paranoid=paranoid)
+            if pre in ("both", "low"):
+                th.freeEnergyLow.tracePhase(TMin, TMax, dT, rTol=rTol, paranoid=paranoid)
+            if pre == "none":
+                for fe in (th.freeEnergyHigh, th.freeEnergyLow):
+                    fe.minPossibleTemperature[0] = TMin
+                    fe.maxPossibleTemperature[0] = TMax
     except TraceTimeout:
         v.label("outcome:timeout")
         return
@@ -796,16 +808,71 @@ def check_tc(case, v: Verdict):
         if sc.hop_at is not None:
             v.label("tc:skipped-after-hop")
             return
-    lo = max(th.freeEnergyHigh.minPossibleTemperature[0], th.freeEnergyLow.minPossibleTemperature[0])
-    hi = min(th.freeEnergyHigh.maxPossibleTemperature[0], th.freeEnergyLow.maxPossibleTemperature[0])
     Tc = cf.Tc
+
+    def coexist():
+        return (max(th.freeEnergyHigh.minPossibleTemperature[0], th.freeEnergyLow.minPossibleTemperature[0]),
+                min(th.freeEnergyHigh.maxPossibleTemperature[0], th.freeEnergyLow.maxPossibleTemperature[0]))
+
+    lo, hi = coexist()
+    if pre != "both" and not (lo + dT <= Tn <= hi - dT):
+        # the range left after the safety margins of the user's own trace no longer contains the temperature the
+        # other phase starts from: tracing from outside the requested range is not a request tracePhase supports
+        # (ValueError from the spline, seen at seed 1) - the user traces the rest too
+        v.label("tc-pretrace:start-outside-coexistence-range->both")
+        try:
+            with time_limit(2 * TRACE_TIME_LIMIT_S):
+                if not th.freeEnergyHigh.hasInterpolation():
+                    th.freeEnergyHigh.tracePhase(TMin, TMax, dT, rTol=rTol, paranoid=paranoid)
+                if not th.freeEnergyLow.hasInterpolation():
+                    th.freeEnergyLow.tracePhase(TMin, TMax, dT, rTol=rTol, paranoid=paranoid)
+        except TraceTimeout:
+            v.label("outcome:timeout")
+            return
+        except (AssertionError, RuntimeError) as exc:
+            v.label("outcome:trace:" + type(exc).__name__)
+            return
+        lo, hi = coexist()
     inside = lo + dT < Tc < hi
     try:
-        got = th.findCriticalTemperature(dT, rTol=rTol, paranoid=paranoid)
+        with time_limit(2 * TRACE_TIME_LIMIT_S):
+            got = th.findCriticalTemperature(dT, rTol=rTol, paranoid=paranoid)
+    except TraceTimeout:
+        v.label("outcome:timeout")
+        return
     except WallGoError as exc:
+        lo, hi = coexist()
+        inside = lo + dT < Tc < hi
         v.label("outcome:tc:WallGoError:" + ("Tc-inside-range" if inside else "Tc-outside-range"))
         v.info["msg"] = str(exc)[:120]
         return
+    except (AssertionError, RuntimeError) as exc:
+        if pre == "both":
+            raise
+        v.label("outcome:tc-trace:" + type(exc).__name__)
+        return
+    if pre != "both":
+        # the phases findCriticalTemperature traced itself are judged like any other table, and they must have
+        # been traced at all ("the critical temperature returned for two TRACED phases")
+        for which, fe in (("high", th.freeEnergyHigh), ("low", th.freeEnergyLow)):
+            if which in tabs:
+                continue
+            tab = zp.table_of(fe)
+            v.checked("tc-traced")
+            if tab is None:
+                v.fail("tc-traced", f"{spec['family']}/{which} pretrace={pre}",
+                       f"findCriticalTemperature returned {got / s:.8g} but the {which}-T phase, which the caller had "
+                       f"not traced, still has no table (range {fe.minPossibleTemperature}, {fe.maxPossibleTemperature})")
+                return
+            tabs[which] = tab
+            sc = scan_nodes(v, V, cf, spec, which, existence(cf, which), tab[0], tab[1], rTol, paranoid, Tn,
+                            flags_txt=f"flags {fe.minPossibleTemperature[1]},{fe.maxPossibleTemperature[1]} "
+                                      f"(tc case, traced by findCriticalTemperature)")
+            if sc.hop_at is not None:
+                v.label("tc:skipped-after-hop")
+                return
+        lo, hi = coexist()
+        inside = lo + dT < Tc < hi
     v.label("tc:returned:" + ("Tc-inside-range" if inside else "Tc-outside-range"))
     v.nontrivial = True
     v.checked("tc-value")
